@@ -9,7 +9,7 @@ CHECKS = {
         design="DESIGN 4 C10"),
     "C16": dict(
         text="proof: next_id monotone, id stability (under the checked break_cycles-locality hypothesis), closedness, re-add idempotence of add_type_with_name, one definition per name under name-freshness of definitions - for all histories of allocation-level operations, no axioms; clause 4 proved for the set of registered names only (partial), structure checked on the implementation; every real history of the run is replayed call by call in the Coq model.",
-        note="4 known findings (C16-1..4): re-added / colliding definition names duplicate definitions and change ids; state after a failed batch. C16_split_independent is _partial. Trusted: Coq kernel + vm_compute (no axioms), hand model Space.v tied per call to verif_dump, python trace derivation.",
+        note="3 known findings (C16-1, C16-3, C16-4): re-added definition names and titled sub-schemas duplicate definitions and change ids; state after a failed batch. C16-2 repaired by fix c22ef06 and mirrored in the model. C16_split_independent is _partial. Trusted: Coq kernel + vm_compute (no axioms), hand model Space.v tied per call to verif_dump, python trace derivation.",
         technique="Coq proof over an executable model of TypeSpace id allocation (converter and break_cycles universally quantified) + per-call replay of real histories in the model + direct evaluation of the four clauses on the public API",
         design="DESIGN 4 C16, notes/C16.md"),
     "C13": dict(
@@ -34,7 +34,7 @@ CHECKS = {
         design="DESIGN 4 C07, notes/C07.md"),
     "C17": dict(
         text="proof (Coq, no axioms) of has_impl soundness for every type space and both code variants outside exactly characterised classes, with refutation witnesses for the pinned code; projections (props/variants/inner/builder/names) proved on the model; model = code and the property itself checked on every run against syn and rustc over a compiled world",
-        note="uses_* flag updates are not modelled: `uses_flags_cover` is a proven-sound checker evaluated on each real dump, plus a token-level check; F1 (Display on constrained string newtypes), F3 (serde_json for native defaults) and F4 (1-tuple variants) are recorded findings; F2 repaired by fix 2273521",
+        note="uses_* flag updates are not modelled: `uses_flags_cover` is a proven-sound checker evaluated on each real dump, plus a token-level check; F3 (serde_json for native defaults) and F4 (1-tuple variants) are recorded findings; F1 repaired by fix 0e25061, F2 by fix 2273521",
         technique="verified algorithm model + translation-validation style checkers (vm_compute on the real IR) + compiled trait-bound assertions",
         design="DESIGN 4 C17, notes/C17.md"),
     "C18": dict(
@@ -57,6 +57,11 @@ CHECKS = {
         note="no axioms; hypotheses wf_conv (checked true on every explored dump) and A1 (native FromStr = Deserialize, validated per run against the compiled uuid/chrono/std::net); Display theorem excludes one recorded finding class (chrono DateTime Display, C11-F2) with a refutation witness replayed on the real code; C11-F1 (brace raw names) repaired by fix a0ebad5",
         technique="Coq proof over an executable model of the FromStr/TryFrom/Display templates and of serde's string (de)serialisation (Algo/StrConv.v), tied each run to compiled generated code by a per-probe correspondence (parse, try_from x3, deserialize, Display, chosen variant, emitted impls) with regex verdicts from the real regress crate; plus direct evaluation of the property on the compiled code",
         design="DESIGN 4 C11, notes/C11.md"),
+    "C08": dict(
+        text="proof: for every Unicode string and both cases, sanitize yields an identifier accepted by syn and recase/variant renames denote exactly the original JSON name; enum variants, struct fields and the definitions of one call are pairwise distinct or generation fails (panic resp. InvalidSchema, the latter exactly on collisions) - Coq, no axioms, for every character classification satisfying ClassesOK, which is audited exhaustively over all 1,112,064 scalars each run. Identifiers that differ as scalar sequences but are NFC-equal (C08-F4) are recorded as a finding.",
+        note="model of heck 0.5.0 `transform` and util.rs `sanitize` tied by correspondence on ~18k (quick) / ~147k (thorough) strings and ~16k/~90k pipeline schemas; syn acceptance modelled and compared with real syn; NFC normalisation by rustc outside the model. C08-F1/F3 fixed by 5896b59, C08-F2 by c22ef06; their witnesses are must-reject regression cases. Type names of definitions colliding with derived sub-type names or across calls are C16's scope.",
+        technique="Coq verified algorithm (parametric in Unicode classes) + exhaustive class-hypothesis audit + model/implementation correspondence + direct pipeline oracle",
+        design="DESIGN 4 C08, notes/C08.md"),
 }
 
 NOT_YET = "not yet built in this round (planned, see DESIGN.md section 7)"
